@@ -236,10 +236,10 @@ def check_C10(c):
     # extended operator set (prefix-closed): registered symbolic and word operators
     pre = ["REG\tinfix\t%s\t115\tcalc\tleft\t(arg 0)" % hx(o) for o in ["**", "~", "=~", "<=>", "hi", "inside", "<~", "<~>"]] + \
           ["REG\tprefix\t%s\t0\tcalc\tleft\t(arg 0)" % hx(o) for o in ["~~", "neg"]] + \
-          ["REG\tpostfix\t%s\t0\tcalc\tleft\t(arg 0)" % hx("!!")]
+          ["REG\tpostfix\t%s\t0\tcalc\tleft\t(arg 0)" % hx(o) for o in ["!!", "percent", "§"]]
     alpha2 = G.CHAR_ALPHABET + ["~", ">", "h", "i", "s", "d"]
     strings2 = []
-    words2 = G.WORDS + ["**", "~", "=~", "<=>", "hi", "inside", "in", "ins", "hinside", "~~", "neg", "!!", "<~", "<~>", "=~=", "<="]
+    words2 = G.WORDS + ["**", "~", "=~", "<=>", "hi", "inside", "in", "ins", "hinside", "~~", "neg", "!!", "<~", "<~>", "=~=", "<=", "percent", "percents", "§", "5 percent"]
     for _ in range(n // 2):
         k = 1 + rng.below(16)
         strings2.append("".join(rng.choice(alpha2) for _ in range(k)))
@@ -252,7 +252,8 @@ def check_C10(c):
     # text is tokenized again — the second result must show the operator (longest match over the *current* set; prefix-closed
     # sets only, see KF-C10-gap). Fresh operator names, so nothing earlier in this process has looked them up.
     hist = []
-    for op, kind_ in [("<=>", "infix"), ("contains", "infix"), ("=~", "infix"), ("~", "prefix"), ("!!", "postfix"), ("within", "infix"), ("<~", "infix")]:
+    for op, kind_ in [("<=>", "infix"), ("contains", "infix"), ("=~", "infix"), ("~", "prefix"), ("!!", "postfix"), ("within", "infix"), ("<~", "infix"),
+                      ("pct", "postfix"), ("¶", "postfix"), ("negate", "prefix"), ("-@", "infix")]:
         texts = ["7 %s 3" % op, "a%sb" % op if op[0] in "+-*/^%&!=?:><|" else "a %s (b)" % op, "[x %s y, 1]" % op]
         if op == "=~":
             hist.append("REG\tinfix\t%s\t115\tcalc\tleft\t(arg 0)" % hx("~"))   # keep the set prefix-closed: `=~` needs … `=` is built in
@@ -405,6 +406,8 @@ def check_C11(c):
                 out.append(tk)
             lead = "".join(rng.choice(WS) for _ in range(rng.below(3)))
             pairs.append((base, lead + "".join(out) + lead, "respace"))
+        # the tightest spelling (symbolic operators glued to their operands): the base is that text with blanks added
+        pairs.append((base, G.join_tokens_tightest(toks), "tightest"))
         # extra parentheses around complete subexpressions
         for style in ("extra", "full"):
             rd2 = G.Renderer(table, rng.fork(), style)
